@@ -276,7 +276,7 @@ check("C14", "exploration",
 check("C15", "model_checking",
       "Explicit-state search over call histories executed on the real library. State = the process-global lexer/parser/tracker "
       "state (parser statics read through a wrapper TU, flex start condition and buffer stack, UTAP::tracker, errno); "
-      "transition = one more call of a public entry point, executed in a process forked from that state. 40 events (XML by "
+      "transition = one more call of a public entry point, executed in a process forked from that state. 43 events (XML by "
       "buffer/fd, XTA by buffer/FILE*, queries by buffer/FILE*, bare blocks; accepted, diagnosed, throwing XMLReaderError / "
       "XMLDocError / runtime_error / TypeException from inside the grammar, unterminated comments, 3.x syntax, a client builder "
       "aborting inside a comment / an array declarator / a label, literals that leave errno set, models accepted with every kind of warning). All histories of length <= 2 (quick) / 3 (thorough) from "
